@@ -1,8 +1,134 @@
-/- Driver handler owned by property C09: `c09 <args…>` requests. -/
+/- Driver handler owned by property C09: `c09 <args…>` requests.
+
+   c09 pratt <tok>*      model of binop_expr on tokens (`a<n>`, `!`, operator names; `Sub` is the hyphen)
+   c09 ref <tok>*        reference grammar on the same (well-formed) token list
+   c09 rel <A> <B>       generated relative_associativity
+   c09 num|hex|asn|ipv4|str|chr|fstr|fpart|kw <hex of UTF-8 source>
+   c09 prefix4 a b c d len
+-/
 import Driver.Util
+import RotoV.Model.Pratt
+import RotoV.Model.Literal
+import RotoV.Model.FString
+import RotoV.Generated.Precedence
 
 namespace Driver.C09
+open RotoV RotoV.Pratt RotoV.Literal RotoV.FString
 
-def handle (_args : List String) : String := "bad-op"
+def rel (a b : BinOp) : Res Assoc := RotoV.Gen.Precedence.relative_associativity false a b
+
+def readTok (s : String) : Option Tok :=
+  if s == "!" then some .bang
+  else if s.startsWith "a" then (s.drop 1).toNat?.map Tok.atom
+  else (BinOp.ofName s).map Tok.op
+
+def assocName : Assoc → String
+  | .Left => "Left" | .Right => "Right" | .Not => "Not"
+
+def showPRes : PRes → String
+  | .ok t [] => s!"ok {t.sexp}"
+  | .ok t _ => s!"partial {t.sexp}"
+  | .chained o p => s!"err chained {BinOp.name o} {BinOp.name p}"
+  | .unexpected => "err unexpected"
+  | .panic => "panic"
+  | .fuel => "fuel"
+
+/-- read a well-formed token list back into `x0 (op x)*` -/
+def readOperand : List Tok → List UnOp → Option (Operand × List Tok)
+  | .bang :: r, acc => readOperand r (.not :: acc)
+  | .op .Sub :: r, acc => readOperand r (.neg :: acc)
+  | .atom n :: r, acc => some (⟨acc.reverse, n⟩, r)
+  | _, _ => none
+
+partial def readTail (ts : List Tok) (acc : Tail) : Option Tail :=
+  match ts with
+  | [] => some acc.reverse
+  | .op o :: r =>
+    match readOperand r [] with
+    | some (x, r') => readTail r' ((o, x) :: acc)
+    | none => none
+  | _ => none
+
+def hexOf (bs : List UInt8) : String :=
+  let d (n : Nat) : Char := if n < 10 then Char.ofNat (48 + n) else Char.ofNat (87 + n)
+  String.ofList (bs.flatMap fun b => [d (b.toNat / 16), d (b.toNat % 16)])
+
+def hexStr (cs : List Char) : String :=
+  let h := hexOf (String.ofList cs).toUTF8.toList
+  if h.isEmpty then "-" else h
+
+def unhexStr (s : String) : Option (List Char) :=
+  if s == "-" then some [] else
+  match unhex s with
+  | some bs => (String.fromUTF8? (ByteArray.mk bs.toArray)).map String.toList
+  | none => none
+
+def asciiAlpha (c : Char) : Bool := (65 ≤ c.toNat && c.toNat ≤ 90) || (97 ≤ c.toNat && c.toNat ≤ 122)
+/-- the driver instantiates the XID predicates on ASCII only (the generator
+    keeps non-ASCII text away from numeric literals) -/
+def xidStartA (c : Char) : Bool := asciiAlpha c
+def xidContA (c : Char) : Bool := asciiAlpha c || isDigit c || c == '_'
+
+def showLit : Option Lit → String
+  | some (.int n s) => s!"int {n} {hexStr s}"
+  | some (.float b s) => s!"float {b} {hexStr s}"
+  | some (.asn n) => s!"asn {n}"
+  | some (.ipv4 a b c d) => s!"ipv4 {a} {b} {c} {d}"
+  | none => "err"
+
+def showParts (ps : List Part) : String :=
+  " ".intercalate (ps.map fun
+    | .text s => "T" ++ hexStr s
+    | .hole s => "H" ++ hexStr s)
+
+def handle (args : List String) : String :=
+  match args with
+  | "pratt" :: toks =>
+    match toks.mapM readTok with
+    | some ts => showPRes (parseExpr rel ts)
+    | none => "bad-op"
+  | "ref" :: toks =>
+    match toks.mapM readTok with
+    | some ts =>
+      match readOperand ts [] with
+      | some (x0, r) =>
+        match readTail r [] with
+        | some tl => (match reference x0 tl with | some t => s!"ok {t.sexp}" | none => "err")
+        | none => "malformed"
+      | none => "malformed"
+    | none => "bad-op"
+  | ["rel", a, b] =>
+    match BinOp.ofName a, BinOp.ofName b with
+    | some a, some b => (match rel a b with | .ok r => assocName r | .panic => "panic")
+    | _, _ => "bad-op"
+  | ["prefix4", a, b, c, d, l] =>
+    match a.toNat?, b.toNat?, c.toNat?, d.toNat?, l.toNat? with
+    | some a, some b, some c, some d, some l =>
+      (match prefixV4 a b c d l with | some (addr, len) => s!"ok {addr} {len}" | none => "err")
+    | _, _, _, _, _ => "bad-op"
+  | [kind, h] =>
+    match unhexStr h with
+    | none => "bad-op"
+    | some cs =>
+      match kind with
+      | "num" => showLit (decodeNumber xidStartA xidContA cs)
+      | "hex" => (match decodeHex cs with | some n => s!"int {n} -" | none => "err")
+      | "asn" => showLit ((decodeAsn cs).map Lit.asn)
+      | "ipv4" => showLit (decodeIpv4 cs)
+      | "str" => (match unescape cs with | some s => s!"ok {hexStr s}" | none => "err")
+      | "chr" => (match unescapeChar cs with | some c => s!"ok {hexStr [c]}" | none => "err")
+      | "fstr" => (match fString (cs.length + 2) cs with | some ps => s!"ok {showParts ps}" | none => "err")
+      | "fpart" =>
+        (match fStringPart cs with
+         | .part .intermediate t r => s!"I {hexStr t} {utf8Len r}"
+         | .part .stringEnd t r => s!"E {hexStr t} {utf8Len r}"
+         | .none => "none"
+         | .panic => "panic")
+      | "kw" =>
+        let s := String.ofList cs
+        if RotoV.Gen.Precedence.keywords.contains s then "kw"
+        else if RotoV.Gen.Precedence.boolWords.contains s then "bool" else "no"
+      | _ => "bad-op"
+  | _ => "bad-op"
 
 end Driver.C09
